@@ -132,6 +132,54 @@ pub fn gen_build_case(rng: &mut Rng, tier: Tier) -> BuiltCase {
     // a resolver with nothing to resolve (the builder still calls it with the empty set)
     world.npm = Some(Default::default());
   }
+  // a resolver (import-map style): bare specifiers mapped to modules of the world, to nothing, or
+  // refused; types for untyped modules; a default JSX import source
+  if rng.chance(12) {
+    let mut cfg = ResolverCfg::default();
+    // targets the resolver maps to are imported without a `type` attribute: only modules that nobody
+    // imports with one qualify (the same-attribute proviso of C01 / C19)
+    let mods: Vec<String> = world.entries.keys().filter(|s| !s.starts_with("npm:") && !s.starts_with("jsr:") && attr_class_target(s, true) == 0).cloned().collect();
+    if !mods.is_empty() {
+      cfg.map.insert("lib".into(), Some(rng.pick(&mods).clone()));
+      if rng.chance(60) {
+        cfg.map.insert("lib/other".into(), Some(rng.pick(&mods).clone()));
+      }
+    }
+    cfg.map.insert("lib/absent".into(), Some("https://h.test/not-served.ts".into()));
+    cfg.map.insert("blocked".into(), None);
+    for s in &mods {
+      let untyped = [".js", ".jsx", ".mjs", ".cjs"].iter().any(|e| s.ends_with(e));
+      if untyped && rng.chance(45) {
+        cfg.types.insert(s.clone(), match rng.below(5) {
+          0 => None,
+          1 => Some("https://h.test/not-served.d.ts".into()),
+          _ => Some(rng.pick(&mods).clone()),
+        });
+      }
+    }
+    if rng.chance(40) {
+      cfg.jsx_source = Some("https://h.test/jsx".into());
+      if rng.chance(50) {
+        cfg.jsx_types = Some("https://h.test/jsx-types".into());
+      }
+    }
+    let k = world.entries.len();
+    let spec = format!("file:///p/bare{}.ts", k);
+    let mut src = ModSrc::default();
+    for _ in 0..rng.range(1, 4) {
+      let form = match rng.below(5) {
+        0 => Form::Dynamic,
+        1 => Form::TypeOnly,
+        2 => Form::Named,
+        _ => Form::Static,
+      };
+      let text = (*rng.pick(&["lib", "lib", "lib/other", "lib/absent", "blocked", "unmapped"])).to_string();
+      src.imports.push(Imp { form, text });
+    }
+    world.entries.insert(spec.clone(), Entry::Module { src, raw: None, headers: None });
+    roots.push(spec);
+    world.resolver = Some(cfg);
+  }
   BuiltCase { lock: None, world, roots, bcfg, unstable, max_redirects }
 }
 
@@ -161,6 +209,7 @@ pub fn real_build_locked(c: &BuiltCase, graph: &mut ModuleGraph, roots: &[String
     unstable_text_imports: c.unstable.1,
     unstable_css_imports: c.unstable.2,
     passthrough_jsr_specifiers: c.world.passthrough_jsr,
+    resolver: c.world.resolver.as_ref().map(|r| r as &dyn deno_graph::source::Resolver),
     npm_resolver: npm.as_ref().map(|r| r as &dyn deno_graph::source::NpmResolver),
     executor: &exec,
     locker: if c.lock.is_some() { Some(&mut locker) } else { None },
@@ -236,6 +285,7 @@ pub fn gen_case(seed: u64, k: u64, tier: Tier) -> Case {
       (if has_asset { "with_asset_load".into() } else { "no_asset_load".into() }, 1),
       ("loader_calls".to_string(), log.len() as u64),
       (format!("npm_resolver_{}", c.world.npm.is_some()), 1),
+      (format!("resolver_{}", c.world.resolver.is_some()), 1),
       (format!("npm_specifier_entries_{}", graph.specifiers().filter(|(s, _)| s.scheme() == "npm").count().min(3)), 1),
       (format!("jsr_passthrough_{}_entries_{}", c.world.passthrough_jsr, graph.specifiers().filter(|(s, _)| s.scheme() == "jsr").count().min(3)), 1),
     ],
